@@ -2,6 +2,8 @@
 
 The two properties have separate Spec modules, monitors and driver modes (VERIF_MC_FAM=vote|gas) inside one Go package.
 """
+import os
+
 import vcheck as V
 
 
@@ -67,10 +69,81 @@ class Vote(V.Family):
                     mid_block_steps=sum(1 for r in trace_all if r["act"] != "reset" and not r["obs"]["blk"]))
 
 
+class Gas(V.Family):
+    name = "mainchain-gas"
+    props = ("C19",)
+    driver_pkg = "mainchain"
+    monitor = ("MainChainGasTrace.tla", "MainChainGasTrace.cfg")
+    step_keys = ("act", "S", "u", "v", "amt", "w", "k", "id")
+    reset_keys = ("notary", "ns", "nc", "idx", "src")
+    assume = [
+        "neo-go v0.107.0 compiler/VM/ledger/native contracts/neotest are faithful to the production platform",
+        "GAS amounts are exact: the driver splits every native balance / notification amount into three base-10^6 limbs "
+        "(values < 10^18) and the TLA+ predicates compute on limbs; the limb operators are validated against TLC integers in S1 (B = 10)",
+        "all fees of the driving transactions are paid by a separate account, so tracked accounts change only through the contracts; "
+        "GAS minted by NEO transfers inside a transaction is read from the native Transfer notifications of that transaction",
+        "without Notary the vote-collected methods (cheque, setConfig, candidate removal by the Alphabet) are judged by C17; "
+        "C19 judges cheque with Notary and deposit/withdraw/candidate fee in both modes",
+        "a GAS payment to NeoFS whose data is the candidate-fee marker 0x570b is accepted silently by the contract; the statement is "
+        "silent about it, the Spec models it and Conservation counts it as an unreported receipt",
+        "TLC 1.8.0 evaluates the property predicates correctly on the recorded steps",
+    ]
+    rule = ("one evaluation = one transaction executed on the real NeoFS/Processing/Proxy/Alphabet contracts and judged by the TLA+ "
+            "monitor; distinct_nontrivial counts distinct (action, outcome, return, notary mode, kind/token, target, signer class, "
+            "amount class, #Inner Ring nodes for emit) tuples")
+    tiers = {
+        "quick": dict(mc=[("MainChainGasMC.tla", "MainChainGas_quick_notary.cfg"), ("MainChainGasMC.tla", "MainChainGas_quick_nonotary.cfg"),
+                          ("MainChainGasMC.tla", "MainChainGas_quick_emit.cfg")], mc_timeout=900,
+                      sim=("MainChainGasMC.tla", "MainChainGas_sim.cfg", 40, 25), sim_keep=120, nrand=250, shards=4,
+                      env=dict(VERIF_MC_FAM="gas")),
+        "thorough": dict(mc=[("MainChainGasMC.tla", "MainChainGas_thorough_notary.cfg"), ("MainChainGasMC.tla", "MainChainGas_thorough_nonotary.cfg"),
+                             ("MainChainGasMC.tla", "MainChainGas_thorough_emit.cfg")], mc_timeout=3000,
+                         sim=("MainChainGasMC.tla", "MainChainGas_sim.cfg", 800, 25), sim_keep=3000, nrand=6000, shards=12,
+                         env=dict(VERIF_MC_FAM="gas")),
+    }
+
+    def scenario_from_tlc(self, s):
+        sc = {k: s[k] for k in ("notary", "ns", "nc", "idx") if k in s}
+        sc["steps"] = [{k: st[k] for k in self.step_keys if k in st} for st in s["steps"]]
+        return sc
+
+    @staticmethod
+    def _val(l):
+        return l[0] + 10**6 * l[1] + 10**12 * l[2]
+
+    def nontrivial_key(self, r, prev):
+        if prev is None:
+            return None
+        S = set(r["S"])
+        sc = "alpha" if "ALPHA" in S else "owner" if (r["u"] in S or r["v"] in S) else "member" if any(x.startswith("m") for x in S) \
+            else "other" if S else "none"
+        a = self._val(r["amt"])
+        ac = "0" if a == 0 else "1" if a == 1 else "<max" if a < 9000 * 10**8 else "max" if a == 9000 * 10**8 else ">max"
+        n = prev["obs"]["irN"] if r["act"] == "emit" else 0
+        return (r["act"], r["res"], r["ret"], prev["obs"]["notary"], r["k"], r["v"] if r["act"] == "pay" else "", sc, ac, n, len(r["ntf"]))
+
+    def extra_coverage(self, trace_all, flags_all):
+        emits = [(p["obs"]["irN"], self._val(p["obs"]["gas"]["alph"]) + self._val(r["mint"]["alph"]))
+                 for p, r in zip(trace_all, trace_all[1:]) if r["act"] == "emit" and r["res"] == "HALT"]
+        return dict(committee_sizes=sorted(set(r["nc"] for r in trace_all if r["act"] == "reset")),
+                    stored_keys=sorted(set(r["ns"] for r in trace_all if r["act"] == "reset")),
+                    notary_modes=sorted(set(r["notary"] for r in trace_all if r["act"] == "reset")),
+                    emit_halts=len(emits), emit_ir_sizes=sorted(set(n for n, g in emits)),
+                    emit_max_balance=max([g for n, g in emits] or [0]),
+                    emit_residues_mod_16N=len(set((n, g % (16 * n)) for n, g in emits if n)))
+
+
+def _fam(cls):
+    f = cls()
+    if os.environ.get("VERIF_MC_SKIP_S1"):
+        # development aid (mutation runs): S1 does not depend on the code under test
+        f.tiers = {t: dict(c, mc=[]) for t, c in f.tiers.items()}
+    return f
+
+
 def run(pid, tier, seed, replay=None):
     if pid == "C17":
-        return V.run_family(Vote(), pid, tier, seed, replay)
+        return V.run_family(_fam(Vote), pid, tier, seed, replay)
     if pid == "C19":
-        from fam_mainchain_gas import Gas  # noqa
-        return V.run_family(Gas(), pid, tier, seed, replay)
+        return V.run_family(_fam(Gas), pid, tier, seed, replay)
     raise V.Inconclusive("fam_mainchain serves C17 and C19 only")
